@@ -96,6 +96,11 @@ Proof. intros h r l rsv r' Hok H G. unfold dec_ftyp in H. run H. inj_pret H. fin
 
 Lemma lossless_free : leaf_lossless dec_free.
 Proof. intros h r l rsv r' Hok H G. unfold dec_free in H. run H. inj_pret H. finish_lossless. Qed.
+(* vtte (nothing is read) and vsid (four bytes) *)
+Lemma lossless_empty : leaf_lossless dec_empty.
+Proof. intros h r l rsv r' Hok H G. unfold dec_empty in H. inj_pret H. exists []. repeat split. exact Hok. Qed.
+Lemma lossless_b4 : leaf_lossless dec_b4.
+Proof. intros h r l rsv r' Hok H G. unfold dec_b4 in H. run H. inj_pret H. finish_lossless. Qed.
 
 Lemma lossless_mdat : leaf_lossless dec_mdat.
 Proof.
